@@ -47,6 +47,7 @@ fn main() {
                 time_limit_s: arg(&args, "--time-limit").map_or(0.0, |s| s.parse().expect("time")),
                 log_digests: args.iter().any(|a| a == "--digests"),
             };
+            simcore::watchdog::start(ba.prop.clone(), ba.engine.clone(), "C16", ba.replay_dir.clone());
             match ba.engine.as_str() {
                 "l1" => run1::run_batch(ba),
                 "l2" => run2::run_batch(ba),
